@@ -56,9 +56,20 @@ def has_var(e):
 def intify(e):
     if e[0] == 'num':
         return ('num', e[1], 'int')
-    if e[0] == 'ss':
-        return e
     return tuple(intify(x) if isinstance(x, tuple) else x for x in e)
+
+
+def fix_left(e):
+    """keep plain numbers (.ss of a Displace, numpy scalars from applied functions, literals) off the LEFT of a wrapped operand: there Python/numpy
+    evaluate the operation natively and the Ignore wrapper is lost (known finding D14, probed separately)"""
+    if not isinstance(e, tuple):
+        return e
+    e = tuple(fix_left(x) if isinstance(x, tuple) else x for x in e)
+    if e[0] in ('add', 'sub', 'mul', 'div') and not has_var(e[1]) and has_var(e[2]) and e[1][0] != 'num':
+        if e[0] in ('add', 'mul'):
+            return (e[0], e[2], e[1])
+        return (e[0], strip_ss(e[1]), e[2])
+    return e
 
 
 def strip_ss(e):
@@ -201,7 +212,7 @@ def write_module(tag, blocks):
 
 def gen_block(rng, ring=True):
     nin = rng.randint(1, 3)
-    outs = [objectify(rng, nin, gen_expr(rng, nin, rng.randint(1, 4), ring, need_var=True)) for _ in range(rng.randint(1, 3))]
+    outs = [fix_left(objectify(rng, nin, gen_expr(rng, nin, rng.randint(1, 4), ring, need_var=True))) for _ in range(rng.randint(1, 3))]
     T = rng.randint(4, 9)
     if ring:
         outs = [intify(e) for e in outs]     # all-integer programs: exact in Z, and clear of known finding D14
